@@ -4,7 +4,7 @@ import math
 from vmon import attach, gen, refmetrics, refmodel, vutil
 
 NAN = float("nan")
-PROB = set(["qq-q", "marginal", "invreliability", "spreadskill", "murphy", "economicvalue", "bsdecomp", "igncontrib"])
+PROB = set(["qq-q", "marginal", "invreliability", "invreliability-auto", "spreadskill", "murphy", "economicvalue", "bsdecomp", "igncontrib"])
 FIXED_F = {"meteo": 1, "against": 2, "impact": 2, "rank": 2, "mapimpact": 2}
 
 
@@ -74,6 +74,49 @@ def d_invreliability(ctx, rng, ds, paths, kind):
         c.compare_series(ctx, "invreliability", "x mean quantile forecast per bin, input %d" % k, gx, wx, case)
         distinct = max(distinct, len(set(y for y in gy if y == y)))
     c.done(ctx, "invreliability", argv, kind, F, distinct)
+
+
+def d_invreliability_auto(ctx, rng, ds, paths, kind):
+    """several quantile levels and no -r: each level is binned on 11 equal bins between the smallest and largest
+    observation of its own valid cases; one curve per (level, input), level-major"""
+    c = _c16()
+    allq = ds["inputs"][0]["quantiles"]
+    qs = rng.sample(allq, rng.randint(2, min(3, len(allq)))) if len(allq) >= 2 else list(allq)
+    argv = ["-m", "invreliability", "-q", ",".join(gen.fnum(q) for q in qs), "-simple"]
+    fig, case = c.run(ctx, paths, argv, ds)
+    if fig is None:
+        return
+    F = len(ds["inputs"])
+    N = 11
+    curves = [l for l in fig.lines(0) if len(fig.xy(l)[0]) == N]
+    if len(curves) != F * len(qs):
+        ctx.violation("invreliability|series-count", "%d curves of %d bins for %d inputs and %d quantile levels" % (len(curves), N, F, len(qs)), case)
+        return
+    distinct = 0
+    for t, q in enumerate(qs):
+        obs0 = [cc[3][0] for cc in refmodel.valid_cases(ds, 0, [("obs",), ("q", q)])]
+        if not obs0:
+            continue
+        lo, hi = min(obs0), max(obs0)
+        edges = [lo + (hi - lo) * i / float(N) for i in range(N + 1)]
+        edges[-1] = hi
+        for k in range(F):
+            gx, gy = fig.xy(curves[t * F + k])
+            cs = [cc[3] for cc in refmodel.valid_cases(ds, k, [("obs",), ("q", q)])]
+            # a forecast within rounding of a computed bin edge may fall on either side: such datasets are not decided
+            if any(abs(v - e) <= 1e-9 * max(1.0, abs(e)) for o, v in cs for e in edges[1:-1]):
+                ctx.count("invreliability_auto_edge_ties_skipped")
+                continue
+            wx, wy = [], []
+            for i in range(N):
+                sel = [(o, v) for o, v in cs if edges[i] <= v < edges[i + 1]]
+                wx.append(refmetrics.mean([v for o, v in sel]) if sel else 0.0)
+                wy.append(refmetrics.mean([1.0 if o <= v else 0.0 for o, v in sel]) if len(sel) >= 2 else NAN)
+            c.compare_series(ctx, "invreliability", "fraction obs <= quantile forecast per automatic bin, input %d (q=%s, level %d of %d)" % (k, q, t + 1, len(qs)), gy, wy, case)
+            c.compare_series(ctx, "invreliability", "x mean quantile forecast per automatic bin, input %d (q=%s)" % (k, q), gx, wx, case)
+            distinct = max(distinct, len(set(y for y in gy if y == y)))
+    ctx.count("invreliability_multi_quantile_figures")
+    c.done(ctx, "invreliability-auto", argv, kind, F, distinct)
 
 
 def d_droc(ctx, rng, ds, paths, kind, classic=False):
@@ -808,7 +851,7 @@ def d_fss(ctx, rng, ds, paths, kind):
     c.done(ctx, "fss", argv, kind, F, distinct)
 
 
-DIAGRAMS = {"marginal": d_marginal, "invreliability": d_invreliability, "droc": d_droc, "droc0": d_droc0, "spreadskill": d_spreadskill,
+DIAGRAMS = {"marginal": d_marginal, "invreliability": d_invreliability, "invreliability-auto": d_invreliability_auto, "droc": d_droc, "droc0": d_droc0, "spreadskill": d_spreadskill,
             "murphy": d_murphy, "economicvalue": d_economicvalue, "bsdecomp": d_bsdecomp, "igncontrib": d_igncontrib,
             "autocorr": d_autocorr, "autocov": d_autocov, "timeseries": d_timeseries, "meteo": d_meteo, "against": d_against,
             "change": d_change, "map": d_map, "mapimpact": d_mapimpact, "rank": d_rank, "impact": d_impact, "fss": d_fss}
